@@ -3,6 +3,7 @@ package harness
 import (
 	"context"
 	"fmt"
+	"github.com/ethereum/go-ethereum/consensus"
 	"math/big"
 	"runtime/debug"
 
@@ -43,6 +44,8 @@ type EnvSpec struct {
 	// BerlinAt, when non-zero with Fork < Berlin, schedules Berlin (and nothing later) at that block
 	// number: one EVM object can then be moved across the fork with SetBlockNumber.
 	BerlinAt uint64
+	// Number is the block number of the execution (0: block 100).
+	Number uint64
 }
 
 // TxSpec is one top-level invocation.
@@ -171,6 +174,9 @@ func NewForkSession(w *World, env EnvSpec, o ForkOpts) *ForkSession {
 		s.Cfg.BerlinBlock = new(big.Int).SetUint64(env.BerlinAt)
 	}
 	bc := forkBlockCtx(env.Fork, s.L)
+	if env.Number != 0 {
+		bc.BlockNumber = new(big.Int).SetUint64(env.Number)
+	}
 	s.Rules = s.Cfg.Rules(bc.BlockNumber, bc.Random != nil, bc.Time)
 	s.Rec = &ForkRecorder{L: s.L, Proxy: s.Proxy, Alloc: o.Alloc}
 	cfg := avm.Config{ExtraEips: append([]int(nil), env.ExtraEips...)}
@@ -288,6 +294,9 @@ func NewRefSession(w *World, env EnvSpec, o RefOpts) *RefSession {
 	s.DB = w.NewState()
 	cfgc := ChainConfig(env.Fork)
 	bc := refBlockCtx(env.Fork)
+	if env.Number != 0 {
+		bc.BlockNumber = new(big.Int).SetUint64(env.Number)
+	}
 	s.Rules = cfgc.Rules(bc.BlockNumber, bc.Random != nil, bc.Time)
 	s.Rec = &RefRecorder{L: s.L}
 	cfg := evm.Config{ExtraEips: append([]int(nil), env.ExtraEips...)}
@@ -432,4 +441,40 @@ func (t *teeTracer) CaptureAspectExit(jp atypes.JoinPointRunType, result *atypes
 	if l, ok := t.b.(atypes.AspectLogger); ok {
 		l.CaptureAspectExit(jp, result)
 	}
+}
+
+// CountingChain is a header chain of the given height generated on demand; every header lookup is counted.
+type CountingChain struct {
+	Height uint64
+	Reads  uint64
+}
+
+func chainHash(n uint64) common.Hash { return crypto.Keccak256Hash([]byte(fmt.Sprintf("hdr-%d", n))) }
+
+func (c *CountingChain) header(n uint64) *types.Header {
+	h := &types.Header{Number: new(big.Int).SetUint64(n), Difficulty: big.NewInt(1), Time: 1_700_000_000}
+	if n > 0 {
+		h.ParentHash = chainHash(n - 1)
+	}
+	return h
+}
+
+func (c *CountingChain) Engine() consensus.Engine { return nil }
+func (c *CountingChain) GetHeader(hash common.Hash, n uint64) *types.Header {
+	c.Reads++
+	if n > c.Height || hash != chainHash(n) {
+		return nil
+	}
+	return c.header(n)
+}
+
+// UseChainHashes replaces the session's BLOCKHASH source by the repository's own core.GetHashFn walking a
+// counted header chain whose current block is `height` (as the embedding chain wires it).
+func (s *ForkSession) UseChainHashes(height uint64) *CountingChain {
+	c := &CountingChain{Height: height}
+	bc := forkBlockCtx(s.Env.Fork, s.L)
+	bc.BlockNumber = new(big.Int).SetUint64(height)
+	bc.GetHash = acore.GetHashFn(c.header(height), c)
+	s.EVM.SetBlockContext(bc)
+	return c
 }
